@@ -859,7 +859,47 @@ def gen_net(r, n, tier):
         yield f"net {variant} m{m} {f} {','.join(steps)}"
 
 
+def gen_tls(r, n, tier):
+    """the C09 grid; quick = a reduced grid, thorough = the full grid"""
+    srv_ca = ["cli_operator", "cli_viewer", "cli_norole", "cli_wrongca", "cli_expired", "cli_future", "none"]
+    srv_ss = [("ss_b", "ss_b"), ("ss_a", "ss_a"), ("ss_impostor", "ss_b"), ("ss_expired", "ss_expired"),
+              ("ss_future", "ss_future"), ("ss_norole", "ss_norole"), ("none", "ss_b")]
+    cli_ca = [("srv_ok", "test.com"), ("srv_wrongname", "test.com"), ("srv_cnonly", "test.com"),
+              ("srv_wrongca", "test.com"), ("srv_expired", "test.com"), ("srv_future", "test.com"),
+              ("srv_wrongname", "-"), ("srv_ok", "-"), ("srv_wrongca", "-")]
+    cli_ss = [("ss_b", "ss_b"), ("ss_impostor", "ss_b"), ("ss_expired", "ss_expired"), ("ss_future", "ss_future")]
+    cases = []
+    for mn in ("12", "13"):
+        for vers in ("12", "13", "both"):
+            for authz in ("0", "1"):
+                for c in srv_ca:
+                    cases.append(f"tls srv {mn} ca {authz} {vers} {c}")
+                for c, e in srv_ss:
+                    cases.append(f"tls srv {mn} ss {authz} {vers} {c} {e}")
+            for c, name in cli_ca:
+                cases.append(f"tls cli {mn} ca {vers} {c} {name}")
+            for c, e in cli_ss:
+                cases.append(f"tls cli {mn} ss {vers} {c} - {e}")
+    if tier == "thorough":
+        for c in cases:
+            yield c
+        return
+    # quick: all version cells with valid certificates + every certificate kind once per role
+    for c in cases:
+        tok = c.split(" ")
+        valid = tok[-1] in ("cli_operator",) or (tok[1] == "cli" and tok[5] == "srv_ok" and tok[6] == "test.com") \
+            or (tok[1] == "srv" and tok[3] == "ss" and tok[6] == "ss_a")
+        if valid:
+            yield c
+    for c in cases:
+        tok = c.split(" ")
+        if tok[2] == "12" and ((tok[1] == "srv" and tok[5] == "both") or (tok[1] == "cli" and tok[4] == "both")):
+            if r.chance(1, 2):
+                yield c
+
+
 SUITES = {
+    "tls": gen_tls,
     "net": gen_net,
     "life": gen_life,
     "retry": gen_retry,
